@@ -94,13 +94,13 @@ def s_rows(K, A):
     if adt is None:
         return [core.missing(PROP, "S", K, A, "type")]
     fields = adt["variants"][0]["fields"] if adt["variants"] else []
-    want_field = "bits" if is_signed(A) else "digits"
-    if len(fields) == 1 and fields[0]["name"] == want_field and adt["transparent"]:
+    if len(fields) == 1 and adt["transparent"]:
         out.append(core.Ob(key, PROP, "S", K.config, A, core.PROVED,
-                           "repr(transparent) struct with the single field `%s: %s`" % (want_field, fields[0]["ty"])))
+                           "repr(transparent) struct with the single field `%s: %s`" % (fields[0]["name"], fields[0]["ty"])))
     else:
-        out.append(core.Ob(key, PROP, "S", K.config, A, core.VIOLATED,
-                           "representation changed: fields=%s transparent=%s (equality would no longer be digit-array identity)"
+        out.append(core.Ob(key, PROP, "S", K.config, A, core.UNDECIDED,
+                           "representation is no longer a single-field repr(transparent) struct (fields=%s transparent=%s): "
+                           "derived equality is not digit-array identity by construction any more"
                            % ([f["name"] for f in fields], adt["transparent"])))
     for trait in ("core::cmp::PartialEq", "core::cmp::Eq", "core::hash::Hash"):
         key = "%s:S:%s:%s:%s" % (PROP, K.config, A, trait)
